@@ -205,6 +205,14 @@ def build(d, rows=None):
         R.add('PE_PE', Element_ID=inner, Visibility=1, Component_ID=comp, type=7)
         R.add('EP_PKG', Package_ID=inner, Direct_Sys_ID=sys_id, Name='Inner')
         containers['comp'] = ('pkg', inner)
+        # a second, unrelated component: its content is never in scope of the first
+        comp2 = R.new_id()
+        R.add('PE_PE', Element_ID=comp2, Visibility=1, Package_ID=top_pkg, type=2)
+        R.add('C_C', Id=comp2, Name='Other_' + d.component)
+        inner2 = R.new_id()
+        R.add('PE_PE', Element_ID=inner2, Visibility=1, Component_ID=comp2, type=7)
+        R.add('EP_PKG', Package_ID=inner2, Direct_Sys_ID=sys_id, Name='Inner2')
+        containers['comp2'] = ('pkg', inner2)
     B.containers = containers
 
     def pe(elem_id, where, ty):
